@@ -204,6 +204,20 @@ def check(run, prog):
                       what + ("" if pol == "linear" else " with (X, Y) = to_linear(L, R): basis independence"), d.expr, exp[k])
                 ck.same("R2", f_get.where, f"stokes['{nm}'] ledger " + tag, "component signal is an IntensitySignal with unchanged time/frequency labels",
                         comp.cls.name == "IntensitySignal" and not meta_same(out, comp), found=obj_summary(comp), nontrivial=True)
+                # the named attribute (stokesI ... stokesV) is the sibling route to the same component
+                pr = prog.cls("FullStokesSignal").find_property("stokes" + nm)
+                g = pr["get"] if pr else None
+                if g is None:
+                    ck.unk("R2", f_get.where, f"stokes.stokes{nm}", "the named-component attribute exists", "no such property")
+                    continue
+                run.touched(g)
+                comp2 = call(g, out)
+                if comp2 is None:
+                    continue
+                d2 = comp2.attrs.get("_data") if isinstance(comp2, ObjV) else None
+                ck.same("R2", g.where, f"stokes.stokes{nm} " + tag, f"the attribute returns the same component as stokes['{nm}'] (class, labels and data)",
+                        isinstance(d2, Num) and comp2.cls is comp.cls and not meta_same(comp, comp2) and sp.simplify(d2.expr - d.expr) == 0,
+                        found=obj_summary(comp2) if isinstance(comp2, ObjV) else repr(comp2)[:120], nontrivial=True)
             ck.eq("R2", f_stk.where, f"to_stokes ({pol}): I^2 == Q^2+U^2+V^2 " + tag, "derived from the extracted terms",
                   c[0] ** 2, c[1] ** 2 + c[2] ** 2 + c[3] ** 2)
             inten = call(f_int, z)
